@@ -36,12 +36,37 @@ type scenario struct {
 	Point  string `json:"point"`
 	AbortA bool   `json:"abort_a"`
 	TwoTab bool   `json:"a_holds_two_tables"`
+	AllTab bool   `json:"a_holds_every_table"` // newtable only: the database has no table besides A's
+	Init   bool   `json:"initializers_completed_before"`
 }
 
 // runScenario returns "" or a violation (key, message).
 func runScenario(ctl *hookctl.Ctl, idx int, sc scenario) (key, msg string, reached bool) {
 	db := statedb.New()
-	tabs := concw.NewTables(db, "t", 3)
+	ntabs := 3
+	if sc.AllTab {
+		ntabs = 1
+	}
+	tabs := concw.NewTables(db, "t", ntabs)
+	if sc.Init {
+		// the tables went through initialization: initializers registered in one transaction and completed in a later one
+		// (the commit that completes them republishes the table entries)
+		all := make([]statedb.TableMeta, len(tabs))
+		for i := range tabs {
+			all[i] = tabs[i]
+		}
+		w := db.WriteTxn(all...)
+		var done []func(statedb.WriteTxn)
+		for i := range tabs {
+			done = append(done, tabs[i].RegisterInitializer(w, fmt.Sprintf("init%d", i)))
+		}
+		w.Commit()
+		w = db.WriteTxn(all...)
+		for _, d := range done {
+			d(w)
+		}
+		w.Commit()
+	}
 	hA, hB := fmt.Sprintf("A%d", idx), fmt.Sprintf("B%d", idx)
 	A, B := db.NewHandle(hA), db.NewHandle(hB)
 	var pa *hookctl.Pause
@@ -297,6 +322,10 @@ func TestVerif_Forced(t *testing.T) {
 						continue // fail fast: every stuck probe costs its full timeout
 					}
 					sc := scenario{Kind: kind, Point: p, AbortA: abortA, TwoTab: rng.IntN(2) == 0}
+					sc.Init = rng.IntN(3) == 0
+					if kind == "newtable" && rng.IntN(2) == 0 {
+						sc.AllTab, sc.TwoTab = true, false
+					}
 					r.LogCase(idx)
 					key, msg, reached := runScenario(ctl, idx, sc)
 					if reached {
